@@ -146,10 +146,23 @@ func ToTensor(t *ref.T) tensor.Tensor {
 }
 
 // ToTensors converts a list.
+//
+// An operand that is the same *ref.T at several positions of the list becomes
+// ONE tensor object passed at all of them (the caller built one tensor and uses
+// it twice, e.g. as initial_h and initial_c).
 func ToTensors(ts []*ref.T) []tensor.Tensor {
 	out := make([]tensor.Tensor, len(ts))
+	seen := map[*ref.T]tensor.Tensor{}
 	for i, t := range ts {
+		if t == nil {
+			continue
+		}
+		if prev, ok := seen[t]; ok {
+			out[i] = prev
+			continue
+		}
 		out[i] = ToTensor(t)
+		seen[t] = out[i]
 	}
 	return out
 }
